@@ -265,6 +265,18 @@ func msgStructCases(c *Ctx) []json.RawMessage {
 		}
 		add(s)
 	}
+	// message types whose LOW byte is that of a well-known type (CALL, REPLY, EXCEPTION, ONEWAY) under every high byte:
+	// the type is 16 bits wide, only 3 is an exception
+	for hi := 0; hi < 256; hi += c.Pick(5, 1) {
+		for _, lo := range []int{1, 2, 3, 4} {
+			if hi == 0 && lo == 3 {
+				continue
+			}
+			s := randStruct(rng, []string{"Base", "BaseResp", "AppEx"}[(hi+lo)%3], false)
+			s.Mode, s.Method, s.Mt, s.Seq = "msg", StrSpec{Lit: []int{'E', 'c', 'h', 'o'}}, hi<<8|lo, hi
+			add(s)
+		}
+	}
 	// hand-built messages (what a peer that is not this library may send): EXCEPTION payloads with either field left
 	// out, in either order, with unknown fields around them; replies whose struct leaves fields out
 	bp := thrift.Binary
